@@ -72,6 +72,20 @@ theorem step_with_skips_bounded (s : Step) (hs : s ∈ steps) (timeout : Nat) (d
       ∃ t, e.stop = some t ∧ t ≤ start + (skips.length + 1) * timeout :=
   callRun_total s (List.all_eq_true.mp all_steps_timed s hs) timeout deadline skips final start
 
+/-- **The whole exchange is bounded.**  Any peer behaviour, any caller deadline (including none):
+every call of the run has returned by `now + budget`, where the budget is the peer-independent sum of
+the client's own computation time and one timeout per transport call (six, plus one per −404 frame
+skipped) — `Run` as a whole, not only each step, cannot block forever. -/
+theorem whole_run_bounded (timeout : Nat) (deadline : Option Nat) (beh : List Beh) (now : Nat) :
+    ∀ e ∈ runTrace timeout deadline (steps.zip beh) now,
+      ∃ t, e.stop = some t ∧ t ≤ now + budget timeout (steps.zip beh) := by
+  apply runTrace_total
+  intro x hx
+  exact List.all_eq_true.mp all_steps_timed x.1 (List.of_mem_zip hx).1
+
+/-- Non-vacuity: a peer that answers every step after 1 with no client computation: budget 6·timeout. -/
+example : budget 150 (stallAt steps 6 0 1) = 900 := by decide
+
 /-- The default per-request exchange timeout is the documented one minute (in ns). -/
 theorem default_timeout_is_one_minute : Facts.C12.defaultTimeoutNs = 60 * 1000000000 := by decide
 
